@@ -131,6 +131,9 @@ pub struct LineIo {
     pub max_instr: u64,
     /// when the replies are used up start again with the first (very long dialogues)
     pub cycle_replies: bool,
+    /// the host loads a file by itself (not in answer to a LOAD statement) once the line has executed
+    /// this many instructions: (instruction count, file name, run it)
+    pub host_load: Option<(u64, String, bool)>,
     /// upper bound on execute() calls for this line (0 = derived from max_instr); for lines whose
     /// work is not counted in instructions (LIST)
     pub max_slices: u64,
@@ -144,6 +147,7 @@ impl Default for LineIo {
             intrs: vec![],
             max_instr: 200_000,
             cycle_replies: false,
+            host_load: None,
             max_slices: 0,
         }
     }
@@ -607,6 +611,7 @@ impl World {
         let mut instr: u64 = 0;
         let mut slices: u64 = 0;
         let mut budget_fired = false;
+        let mut host_loaded = false;
         let hard_cap = if io.max_slices > 0 { io.max_slices } else { io.max_instr.saturating_mul(2) + 200_000 };
         loop {
             if self.fatal.is_some() {
@@ -629,7 +634,20 @@ impl World {
                     since_intr = Some(0);
                 }
             }
+            if let Some((k, name, run)) = &io.host_load {
+                if !host_loaded && instr >= *k {
+                    host_loaded = true;
+                    self.stats.bump("fault.host_load_during_run");
+                    self.events.push(Ev::Load(format!("(host) {}", name)));
+                    self.service_load(name, *run);
+                }
+            }
             let mut q = self.sched.next();
+            if let Some((k, _, _)) = &io.host_load {
+                if !host_loaded {
+                    q = q.min((*k - instr).min(u32::MAX as u64) as u32).max(1);
+                }
+            }
             if let Some(&n) = instr_targets.first() {
                 q = q.min((n - instr).min(u32::MAX as u64) as u32).max(1);
             }
